@@ -491,9 +491,60 @@ func c14Seq(tier, group string, depth int) func(r *vp.InstResult) {
 	}
 }
 
+// c14ConcurrentScenario: two goroutines create configurations on one manager at the same time, each
+// introducing a new address under the SAME node ID. Whatever the interleaving, the manager keeps one node
+// object per ID: at most one creation may succeed, and the pool must not list the ID twice.
+func c14ConcurrentScenario(sameAddr bool) func() {
+	return func() {
+		w := world.New(world.Opts{N: 1})
+		if w.Cfg == nil {
+			return
+		}
+		a, b := "127.0.0.1:9101", "127.0.0.1:9102"
+		if sameAddr {
+			b = a
+		}
+		var errA, errB error
+		var cfgA, cfgB *dev.Configuration
+		done := 0
+		mc.GoNamed("creator-a", func() {
+			cfgA, errA = w.Mgr.NewConfiguration(w.Spec, gorums.WithNodeMap(map[string]uint32{a: 9}))
+			done++
+		})
+		mc.GoNamed("creator-b", func() {
+			cfgB, errB = w.Mgr.NewConfiguration(w.Spec, gorums.WithNodeMap(map[string]uint32{b: 9}))
+			done++
+		})
+		mc.Quiesce()
+		name := fmt.Sprintf("cfg-concurrent/two-creations-of-node-9/same-address=%v", sameAddr)
+		if done != 2 {
+			fail("C14/creation-blocked", "concurrent", "%s: %d of 2 creations returned", name, done)
+			return
+		}
+		nine := 0
+		for _, id := range w.Mgr.NodeIDs() {
+			if id == 9 {
+				nine++
+			}
+		}
+		if nine > 1 {
+			fail("C14/pool-duplicate-id", "concurrent", "%s: the manager's pool lists node ID 9 %d times (creation errors: %v / %v)", name, nine, errA, errB)
+		}
+		if !sameAddr && errA == nil && errB == nil {
+			fail("C14/should-fail", "concurrent: two addresses for one node ID", "%s: both creations succeeded: addresses %s and %s are both mapped to node 9 (configurations %v / %v)", name, a, b, cfgA.NodeIDs(), cfgB.NodeIDs())
+		}
+		if n, ok := w.Mgr.Node(9); ok && errA == nil && errB != nil && n.Address() != a {
+			fail("C14/address", "concurrent", "%s: creation for %s succeeded but node 9 carries %s", name, a, n.Address())
+		}
+		mc.Outcome("errA=%v errB=%v", errA != nil, errB != nil)
+		mc.NoBranch(true)
+		w.Mgr.Close()
+	}
+}
+
 func init() {
 	register(&Check{ID: "C14",
-		Rule: "explicit-state BFS over configuration-building operations executed on the real manager (successor = replay of the shortest path on a fresh manager + one operation), depth 3 (quick) / 4 (thorough, within the time budget); alphabet: WithNodeList over every address list of length 1..2 (3 thorough) from {a, b, c, c'} (c, c' have colliding generated IDs; duplicates included), WithNodeMap over every 1-2 entry map {a,b,c}->{1,2} in both iteration orders, WithNodeIDs over lists of 1-2 ids from {1, 2, id(a), unknown} and lists of 3 over {1, 2} with adjacent and non-adjacent repeats, And / Except / WithoutNodes / WithNewNodes over the configurations built so far; states deduplicated by (pool, list of configurations); reference model = Go sets; states = distinct canonical states, transitions = operations executed and compared",
+		Rule: "explicit-state BFS over configuration-building operations executed on the real manager (successor = replay of the shortest path on a fresh manager + one operation), depth 3 (quick) / 4 (thorough, within the time budget); alphabet: WithNodeList over every address list of length 1..2 (3 thorough) from {a, b, c, c'} (c, c' have colliding generated IDs; duplicates included), WithNodeMap over every 1-2 entry map {a,b,c}->{1,2} in both iteration orders, WithNodeIDs over lists of 1-2 ids from {1, 2, id(a), unknown} and lists of 3 over {1, 2} with adjacent and non-adjacent repeats, And / Except / WithoutNodes / WithNewNodes over the configurations built so far; states deduplicated by (pool, list of configurations); reference model = Go sets; states = distinct canonical states, transitions = operations executed and compared; plus two goroutines creating, at the same time, configurations that introduce a new address under the same node ID (all schedules within 2 deviations): one node object per ID, never two addresses for one ID",
 		Gen: func(tier string) []Instance {
 			depth := 3
 			if thorough(tier) {
@@ -506,6 +557,9 @@ func init() {
 			}
 			for _, g := range groups {
 				out = append(out, Instance{Name: fmt.Sprintf("cfg-bfs/first=%s/depth=%d", g, depth), Seq: c14Seq(tier, g, depth)})
+			}
+			for _, same := range []bool{false, true} {
+				out = append(out, Instance{Name: fmt.Sprintf("cfg-concurrent/two-creations-of-node-9/same-address=%v", same), Bound: 2, Root: c14ConcurrentScenario(same)})
 			}
 			return out
 		},
